@@ -82,10 +82,13 @@ class Check:
 
     def floor(self, rule, what, n, floor):
         """Instance-count floor: the rule must have seen at least `floor` instances."""
-        self.ob(rule, "floor:" + _slug(what), n >= floor,
-                "%s: analysed %d instances, floor %d (counted by hand on the reference tree)" % (what, n, floor),
+        # `floor` is the count confirmed on the reference tree; a refactoring may legitimately remove a few
+        # instances, a rule that lost most of its instances has lost its anchor
+        need = max(1, (3 * floor) // 4)
+        self.ob(rule, "floor:" + _slug(what), n >= need,
+                "%s: analysed %d instances (reference tree: %d, fails below %d)" % (what, n, floor, need),
                 nontrivial=False,
-                msg="anchor-lost: %s: only %d instances found, expected at least %d" % (what, n, floor))
+                msg="anchor-lost: %s: only %d instances found, the reference tree has %d (fails below %d)" % (what, n, floor, need))
 
     # ------------------------------------------------------------------ finishing
     def finish(self):
